@@ -20,13 +20,23 @@ where
               contract is validated at import time on concrete instances of every shape against
               real pyarrow, and again in every real replay.
 
+The contract covers what ``as_py()`` returns, not whether pyarrow's array builder / full IPC validation
+accept the batch at all; that depends on the instance's *structure* only (which Optionals are None,
+container sizes, enum members — concrete below the solver's case split), so on every path the structural
+skeleton of the instance also goes through the real byte round trip with the tracer off (this is how the
+"null nested dataclass with an Enum field" defect is seen).
+
 Each shape is one CrossHair condition; the conditions are generated (PEP-316 docstring and all)
 into a real module file under a per-process temp dir, because CrossHair needs
 ``inspect.getsource``.  Real replay = real ``serialize_to_bytes``/``deserialize_from_bytes``.
 
 (b) compact codec on flat shapes with msgpack as an *ideal codec* contract stub (msgpack is a C
-extension and is not installed here): every instance the compact codec accepts decodes to the
-same object as the Arrow conversion path, and non-flat shapes are refused (``None``).
+extension and is not installed here): every instance the compact codec accepts — of the flat shape
+and of five non-flat shapes — decodes to the same object as the Arrow conversion path.  Declining an
+instance (``None`` -> Arrow fallback) is always allowed; ``compact_codec_accepts_flat`` is a vacuity
+guard (CONFIRMED / INCONCLUSIVE only) saying whether the flat instances are in fact accepted.
+Real replay of (b): un-stubbed ``serialize_compact``/``deserialize_compact`` on the genuine msgpack
+package (pure-Python build vendored by pip when the C extension is absent) and real pyarrow.
 """
 
 from __future__ import annotations
@@ -43,7 +53,7 @@ from typing import Annotated, Any, Optional
 
 import pyarrow as pa
 
-from engine.api import QUICK, HarnessModelError, cond, pick
+from engine.api import QUICK, HarnessModelError, cond, is_open, pick
 from engine.reglob import reglobalize
 
 from vgi_rpc import utils as U
@@ -74,20 +84,27 @@ BOUNDS = (
     "holds at most one element" % (_DEPTH, "int keys only over int-leaved values", _L)
 )
 OUTSIDE = (
-    "Arrow's own value fidelity (int64 range, IPC framing) — only the Python conversion layer is symbolic; "
+    "Arrow's own fidelity for leaf *values* (int64 range, UTF-8) — the Python conversion layer is symbolic, and what the Arrow "
+    "boundary does with each path's *structure* (None-ness, sizes, enum members: array building, IPC validation) is run for real; "
     "pa.Schema / pa.RecordBatch / bytes / float fields; Annotated[..., ArrowType] overrides; containers longer than 2; "
-    "the real msgpack C codec (modelled as an ideal codec stub; not installed in this environment); "
+    "the msgpack C extension (modelled as an ideal codec stub for the solver; replays use the genuine pure-Python msgpack build); "
+    "whether the compact codec accepts or declines a given instance (either is allowed); "
     "_state_token union envelope; map keys other than str/int/Enum (bool, dataclass or set keys)"
 )
 ASSUMPTIONS = [
     "Arrow contract: pa.array([row_value], type=T)[0].as_py() == arrow_normal_form(row_value, T) for the types "
     "generated here (validated at import on concrete instances of every shape and in each replay)",
-    "msgpack contract in (b): unpackb(packb(x)) is a structurally equal fresh copy of x for None/bool/int/str/bytes/"
-    "dict[str,.] and packb raises TypeError for any other type",
+    "the Arrow boundary's accept/reject behaviour depends on an instance's structure only (which Optionals are None, container "
+    "sizes, enum members), not on int/str/bool leaf values inside int64/UTF-8: on every path the structural skeleton of the "
+    "instance goes through the un-stubbed serialize_to_bytes/deserialize_from_bytes (tracer off) and must round-trip",
+    "msgpack contract in (b): unpackb(packb(x, use_bin_type=True), raw=False) is a structurally equal fresh copy of x for "
+    "None/bool/int/float/str/bytes, list/tuple (-> list), dict (unpackb: ValueError for a non-str/bytes key), bytearray/"
+    "memoryview (-> bytes); packb raises TypeError for any other type; msgpack's int range / UTF-8 limits are not modelled "
+    "(the real replay runs the genuine msgpack package)",
 ]
 
 _STUB_ARROW = "_validate_single_row_batch := returns arrow_normal_form(row, ARROW_SCHEMA) (stated Arrow contract)"
-_STUB_MSGPACK = "msgpack := ideal codec (packb/unpackb structural copy of None/bool/int/str/bytes/dict, TypeError otherwise); _HAVE_MSGPACK := True"
+_STUB_MSGPACK = "msgpack := ideal codec (packb/unpackb structural copy of None/bool/int/float/str/bytes/list/dict, TypeError otherwise; other options -> HarnessModelError); _HAVE_MSGPACK := True"
 
 
 # ---------------------------------------------------------------------------
@@ -438,10 +455,31 @@ def _same(e: tuple, a: Any, b: Any) -> bool:
                 return False
         return True
     if k == "fset":
-        return isinstance(a, frozenset) and isinstance(b, frozenset) and a == b
+        return isinstance(a, frozenset) and isinstance(b, frozenset) and a == b and _scalar_types_ok(e[1], a)
     if k == "dict":
-        return isinstance(a, dict) and isinstance(b, dict) and a == b
+        return isinstance(a, dict) and isinstance(b, dict) and a == b and _scalar_types_ok(e[1], a) and _scalar_types_ok(e[2], a.values())
     raise ValueError(e)
+
+
+_PYTYPE = {"int": int, "bool": bool, "str": str, "enum": Color}
+
+
+def _scalar_types_ok(e: tuple, got: Any) -> bool:
+    """``==`` on sets/dicts does not see ``True`` for ``1`` (or an int-mixin for an Enum): when the element
+    annotation is a scalar, every element of the returned container must be of exactly that Python type."""
+    nullable = False
+    while e[0] == "opt":
+        e, nullable = e[1], True
+    want = _PYTYPE.get(e[0])
+    if want is None:
+        return True  # containers / dataclasses: compared by == (their own __eq__)
+    for x in got:
+        if x is None:
+            if not nullable:
+                return False
+        elif type(x) is not want:
+            return False
+    return True
 
 
 # ---------------------------------------------------------------------------
@@ -609,12 +647,110 @@ def _needs(s: dict) -> dict:
 # ---------------------------------------------------------------------------
 
 
+def _untraced() -> Any:
+    """Run a fully concrete step at native speed (CrossHair's tracer off); a no-op outside CrossHair."""
+    try:
+        from crosshair.tracers import NoTracing
+
+        return NoTracing()
+    except ImportError:
+        import contextlib
+
+        return contextlib.nullcontext()
+
+
+def _structure(e: tuple, v: Any) -> Any:
+    """Concrete structural descriptor of an instance: None-ness, container sizes, enum members — everything the
+    Arrow boundary (array building, IPC validation) can depend on besides the int/str/bool leaf *values*."""
+    if v is None:
+        return None
+    k = e[0]
+    if k == "opt":
+        return _structure(e[1], v)
+    if k in ("int", "bool", "str"):
+        return 0
+    if k == "enum":
+        return 0 if v is _COL[0] else (1 if v is _COL[1] else 2)
+    if k in ("list", "fset"):
+        return tuple([_structure(e[1], x) for x in v])
+    if k == "dict":
+        return tuple([(_structure(e[1], kk), _structure(e[2], vv)) for kk, vv in v.items()])
+    if k == "dc":
+        return tuple([_structure(fe, getattr(v, fname)) for fname, fe, _d in _DC[e[1]]["fields"]])
+    raise ValueError(e)
+
+
+def _from_structure(e: tuple, d: Any, ctr: list) -> Any:
+    """A concrete instance with the given structure; leaves are distinct placeholders (1, 2, ... / 's1', 's2', ...)."""
+    if d is None:
+        return None
+    k = e[0]
+    if k == "opt":
+        return _from_structure(e[1], d, ctr)
+    if k in ("int", "str", "bool"):
+        ctr[0] += 1
+        return ctr[0] if k == "int" else ("s%d" % ctr[0] if k == "str" else ctr[0] % 2 == 0)
+    if k == "enum":
+        return _COL[d]
+    if k == "list":
+        return [_from_structure(e[1], x, ctr) for x in d]
+    if k == "fset":
+        return frozenset(_from_structure(e[1], x, ctr) for x in d)
+    if k == "dict":
+        return {_from_structure(e[1], kd, ctr): _from_structure(e[2], vd, ctr) for kd, vd in d}
+    info = _DC[e[1]]
+    return info["cls"](*[_from_structure(f[1], x, ctr) for f, x in zip(info["fields"], d)])
+
+
+def _raise_site(stage: str, exc: BaseException) -> str:
+    if type(exc).__name__ == "IPCError" and "Dictionary indices invalid" in str(exc):
+        # pa.array() fills a null struct slot's dictionary child with index 0; with no enum value anywhere in that
+        # child the dictionary is empty and full IPC validation rejects the batch
+        return "null-nested-dataclass-with-enum-rejected-by-ipc-validation"
+    return f"{stage}-raises-{type(exc).__name__}"
+
+
+_SKELETON_CACHE: dict = {}
+
+
+def _skeleton_failure(name: str, expr: tuple, d: Any) -> str | None:
+    """Real ``serialize_to_bytes`` / ``deserialize_from_bytes`` (real pyarrow, default validation) on the structural
+    skeleton of this path's instance.  None = it round-trips; else the site that names the finding."""
+    key = (name, d)
+    if key not in _SKELETON_CACHE:
+        why = None
+        try:
+            v0 = _from_structure(expr, d, [0])
+        except TypeError:
+            v0 = None  # placeholder leaves made an unhashable / colliding combination: nothing to run
+        if v0 is not None:
+            try:
+                data = v0.serialize_to_bytes()
+                try:
+                    got = type(v0).deserialize_from_bytes(data)
+                    if not _same(expr, got, _expected(expr, v0)):
+                        why = _diff_site(expr, got, _expected(expr, v0)) or "skeleton-differs"
+                except Exception as exc:  # noqa: BLE001
+                    why = _raise_site("deserialize", exc)
+            except Exception as exc:  # noqa: BLE001
+                why = _raise_site("serialize", exc)
+        _SKELETON_CACHE[key] = why
+    return _SKELETON_CACHE[key]
+
+
 def check(name: str, n: tuple, i: tuple, b: tuple, s: tuple, e: tuple, z: tuple) -> bool:
     shape = _BY_NAME[name]
     if name in _CONTRACT_BROKEN:
         raise HarnessModelError(_CONTRACT_BROKEN[name])
     expr = shape["expr"]
     v = _build(expr, _Pool(n, i, b, s, e, z), -1, shape["depth"] >= 3)
+    # The Arrow boundary itself, for real: this path's structure (which Optionals are None, container sizes, enum
+    # members — all concrete below the solver's case split) goes through the un-stubbed byte round trip.
+    d = _structure(expr, v)
+    with _untraced():
+        why = _skeleton_failure(name, expr, d)
+    if why is not None and not is_open("C03:deser:" + why):
+        return False  # the real replay (same structure, the counterexample's own leaf values) decides
     try:
         row = _ser(v)  # real _to_row_dict + Arrow contract
     except HarnessModelError:
@@ -636,6 +772,22 @@ def _args_to_pool(args: dict) -> _Pool:
     return _Pool(grab("n"), grab("i"), grab("b"), grab("s"), grab("e"), grab("z"))
 
 
+def _outside_arrow_domain(args: dict, exc: BaseException) -> bool:
+    """True when the counterexample carries a value Arrow itself cannot hold (an int beyond int64, a str that is
+    not valid Unicode text) *and* the failure is of the class Arrow reports that with."""
+    if not isinstance(exc, (OverflowError, UnicodeError, pa.ArrowInvalid)):
+        return False
+    for x in args.values():
+        if type(x) is int and not -(2**63) <= x < 2**63:
+            return True
+        if type(x) is str:
+            try:
+                x.encode("utf-8")
+            except UnicodeError:
+                return True
+    return False
+
+
 def replay(name: str, args: dict) -> str | None:
     """Real Arrow round trip of the concrete counterexample (no stubs)."""
     shape = _BY_NAME[name]
@@ -645,6 +797,8 @@ def replay(name: str, args: dict) -> str | None:
     try:
         batch = v._serialize()
     except Exception as exc:  # noqa: BLE001
+        if _outside_arrow_domain(args, exc):
+            return None  # Arrow's own value domain (int64 / UTF-8), stated OUTSIDE: a legitimate rejection
         return f"{_describe(expr)}: serializing {v!r} raised {type(exc).__name__}: {exc}"
     # the Arrow contract must hold on this very instance, otherwise the harness (not the repo) is suspect
     real_row = U._validate_single_row_batch(batch, type(v).__name__)
@@ -712,9 +866,98 @@ def _defect_site(e: tuple) -> str | None:
     return None
 
 
-def signature(name: str) -> str:
-    site = _defect_site(_BY_NAME[name]["expr"])
-    return "C03:deser:" + (site or "shape-" + name)
+def _pyclass(e: tuple) -> type:
+    while e[0] == "opt":
+        e = e[1]
+    k = e[0]
+    if k in _PYTYPE:
+        return _PYTYPE[k]
+    return {"list": list, "fset": frozenset, "dict": dict}[k] if k != "dc" else _DC[e[1]]["cls"]
+
+
+def _unconverted(e: tuple, xs: Any) -> bool:
+    """Some element that is present is not an instance of the Python class its annotation names."""
+    cls = _pyclass(e)
+    return any(x is not None and type(x) is not cls for x in xs)
+
+
+def _diff_site(e: tuple, a: Any, b: Any) -> str | None:
+    """Where (in terms of the annotation) the real round trip's result ``a`` departs from the expected ``b``."""
+    if a is None or b is None:
+        if a is None and b is None:
+            return None
+        return "none-not-preserved" if b is None else "value-became-none"
+    k = e[0]
+    if k == "opt":
+        return _diff_site(e[1], a, b)
+    if k in _PYTYPE:
+        return None if (type(a) is type(b) and a == b) else k + "-value-differs"
+    if k == "dc":
+        info = _DC[e[1]]
+        if type(a) is not info["cls"]:
+            return "dataclass-not-rebuilt"
+        for fname, fe, _d in info["fields"]:
+            r = _diff_site(fe, getattr(a, fname), getattr(b, fname))
+            if r:
+                return r
+        return None
+    if k == "list":
+        if not isinstance(a, list) or len(a) != len(b):
+            return "list-differs"
+        for x, y in zip(a, b):
+            r = _diff_site(e[1], x, y)
+            if r:
+                return r
+        return None
+    if k == "fset":
+        if not isinstance(a, frozenset):
+            return "frozenset-not-rebuilt"
+        if _unconverted(e[1], a):
+            return "frozenset-elements-not-converted"
+        return None if a == b else "frozenset-differs"
+    if k == "dict":
+        if not isinstance(a, dict):
+            return "dict-not-rebuilt"
+        if _unconverted(e[1], a):
+            return "dict-keys-not-converted"
+        if _unconverted(e[2], a.values()):
+            return "dict-values-not-converted"
+        if set(a) != set(b):
+            return "dict-keys-differ"
+        for key in b:
+            r = _diff_site(e[2], a[key], b[key])
+            if r:
+                return r
+        return None
+    return None
+
+
+def _observed_site(name: str, args: dict) -> str | None:
+    """What failed in the real round trip of this counterexample (the finding is named after the failure)."""
+    shape = _BY_NAME[name]
+    expr = shape["expr"]
+    v = _build(expr, _args_to_pool(args), -1, shape["depth"] >= 3)
+    try:
+        data = v.serialize_to_bytes()
+    except Exception as exc:  # noqa: BLE001
+        return _raise_site("serialize", exc)
+    try:
+        got = type(v).deserialize_from_bytes(data)
+    except Exception as exc:  # noqa: BLE001
+        return _raise_site("deserialize", exc)
+    return _diff_site(expr, got, _expected(expr, v))
+
+
+def signature(name: str, args: dict | None = None) -> str:
+    site = None
+    if args is not None:
+        try:
+            site = _observed_site(name, args)
+        except Exception:  # noqa: BLE001
+            site = None
+    if site is None:  # could not be observed: fall back to the shape's first conversion site
+        site = _defect_site(_BY_NAME[name]["expr"]) or "shape-" + name
+    return "C03:deser:" + site
 
 
 # ---------------------------------------------------------------------------
@@ -774,7 +1017,7 @@ _L = H._L
 
 _TEMPLATE = '''
 @cond(q={q}, t={t}, stubs=[H._STUB_ARROW], encoded=_ENC, bound={bound!r},
-      replay=lambda args: H.replay({name!r}, args), signature=lambda args, conc: H.signature({name!r}))
+      replay=lambda args: H.replay({name!r}, args), signature=lambda args, conc: H.signature({name!r}, args))
 def {fname}({params}) -> bool:
     """
     pre: {pre}
@@ -811,7 +1054,7 @@ def _generate_source() -> str:
             params.append(f"z{j}: bool")
         out.append(
             _TEMPLATE.format(
-                q=40,
+                q=60,  # (CPU seconds; the heaviest shapes need ~25 s on an idle machine, ~3x that under load)
                 t=300,
                 bound=f"{_describe(s['expr'])}; lens<=2, strs<={_L}",
                 name=s["name"],
@@ -850,32 +1093,68 @@ def _load_generated() -> None:
 _PACKED: list = []
 
 
-def _msgpack_copy(x: Any) -> Any:
+def _msgpack_copy(x: Any, unpacking: bool = False) -> Any:
+    """What ``unpackb(packb(x, use_bin_type=True), raw=False)`` yields (msgpack's documented type mapping)."""
     if x is None:
         return None
     t = type(x)
-    if t is bool or t is int or t is str or t is bytes:
+    if t is bool or t is int or t is str or t is bytes or t is float:
         return x
+    if t is bytearray or t is memoryview:
+        return bytes(x)
+    if t is list or t is tuple:
+        return [_msgpack_copy(v, unpacking) for v in x]  # arrays come back as lists (use_list=True)
     if t is dict:
-        return {k: _msgpack_copy(v) for k, v in x.items()}
+        if unpacking:
+            for k in x:
+                if type(k) is not str and type(k) is not bytes:
+                    raise ValueError(f"{type(k).__name__} is not allowed for map key")  # strict_map_key=True
+        return {_msgpack_copy(k, unpacking): _msgpack_copy(v, unpacking) for k, v in x.items()}
     raise TypeError(f"can not serialize {t.__name__!r} object")
 
 
-class _IdealMsgpack:
+# keyword arguments whose *modelled* value is the one listed; any other value / keyword leaves the model
+_PACK_MODELLED = {"use_bin_type": True, "use_single_float": False, "strict_types": False, "datetime": False, "default": None, "autoreset": True}
+_UNPACK_MODELLED = {"raw": False, "use_list": True, "strict_map_key": True, "timestamp": 0, "object_hook": None, "object_pairs_hook": None, "ext_hook": None, "list_hook": None}
+_IRRELEVANT_KW = ("unicode_errors", "max_buffer_size", "max_str_len", "max_bin_len", "max_array_len", "max_map_len", "max_ext_len")
+
+
+def _check_kw(which: str, modelled: dict, args: tuple, kw: dict) -> None:
+    if args:
+        raise HarnessModelError(f"msgpack stub: positional options to {which} are not modelled")
+    for name, value in kw.items():
+        if name in _IRRELEVANT_KW:
+            continue
+        if name not in modelled or value is not modelled[name]:
+            raise HarnessModelError(f"msgpack stub: {which}({name}={value!r}) is not modelled")
+
+
+def _stub_packb(obj: Any, *args: Any, **kw: Any) -> bytes:
     """packb returns an opaque token; unpackb(token) returns a structural copy of what was packed."""
+    _check_kw("packb", _PACK_MODELLED, args, kw)
+    _PACKED.append(_msgpack_copy(obj))
+    return b"#%d" % (len(_PACKED) - 1)
 
-    @staticmethod
-    def packb(obj: Any, use_bin_type: bool = True) -> bytes:
-        if use_bin_type is not True:
-            raise HarnessModelError("msgpack stub models use_bin_type=True only")
-        _PACKED.append(_msgpack_copy(obj))
-        return b"#%d" % (len(_PACKED) - 1)
 
-    @staticmethod
-    def unpackb(data: bytes, raw: bool = False) -> Any:
-        if raw is not False or not data.startswith(b"#"):
-            raise HarnessModelError("msgpack stub: foreign payload")
-        return _msgpack_copy(_PACKED[int(data[1:].decode())])
+def _stub_unpackb(data: Any, *args: Any, **kw: Any) -> Any:
+    _check_kw("unpackb", _UNPACK_MODELLED, args, kw)
+    data = bytes(data)
+    if not data.startswith(b"#"):
+        raise HarnessModelError("msgpack stub: foreign payload")
+    return _msgpack_copy(_PACKED[int(data[1:].decode())], unpacking=True)
+
+
+class _MsgpackStub:
+    """Stands for the ``msgpack`` module; anything but packb/unpackb leaves the model."""
+
+    packb = staticmethod(_stub_packb)
+    unpackb = staticmethod(_stub_unpackb)
+
+    def __getattr__(self, name: str) -> Any:
+        raise HarnessModelError(f"msgpack stub: msgpack.{name} is not modelled")
+
+
+_IdealMsgpack = _MsgpackStub()
 
 
 _compact_plan_on = reglobalize(U._compact_plan, _HAVE_MSGPACK=True)
@@ -886,64 +1165,128 @@ FLAT = _define("Flat", [("i", INT), ("b", BOOL), ("s", STR), ("oi", O(INT)), ("o
 _NONFLAT = [s["expr"] for s in SHAPES if s["name"] in ("list_int", "leaf", "dict_int", "fset_enum", "scalars")]
 
 
-def _replay_compact(args: dict) -> str | None:
-    """Real code, real Arrow: the same instance through serialize_to_bytes (the path taken when msgpack is absent)."""
-    v = _build(FLAT, _Pool((), (args["i0"], args["i1"], args["t0"]), (args["b0"], args["b1"]), (args["s0"], args["s1"]), (), (args["z0"], args["z1"], args["z2"])))
-    want = _expected(FLAT, v)
-    if U._HAVE_MSGPACK:
-        blob = U.serialize_compact(v)
-        got = U.deserialize_compact(type(v), blob) if blob is not None else type(v).deserialize_from_bytes(v.serialize_to_bytes())
-    else:
-        if U.serialize_compact(v) is not None:
-            return "serialize_compact claimed an instance although msgpack is not importable"
-        got = type(v).deserialize_from_bytes(v.serialize_to_bytes())
-    if not _same(FLAT, got, want):
-        return f"flat dataclass {v!r} came back as {got!r}"
+# The real msgpack codec for replays.  The C extension is not installed here, but pip vendors the genuine
+# msgpack distribution (pure-Python ``fallback`` Packer/Unpacker, same wire format and type mapping).
+try:
+    import msgpack as _REAL_MSGPACK  # type: ignore[import-not-found]
+except ImportError:
+    try:
+        from pip._vendor import msgpack as _REAL_MSGPACK  # type: ignore[no-redef]
+    except ImportError:
+        _REAL_MSGPACK = None
+
+if _REAL_MSGPACK is not None:
+    # un-stubbed repository code; the only re-bound names are the optional import and its availability flag
+    _real_serialize_compact = reglobalize(U.serialize_compact, msgpack=_REAL_MSGPACK, _compact_plan=_compact_plan_on)
+    _real_deserialize_compact = reglobalize(U.deserialize_compact, msgpack=_REAL_MSGPACK, _compact_plan=_compact_plan_on)
+
+
+def _real_compact_verdict(expr: tuple, v: Any) -> str | None:
+    """C03, second sentence, on real code: real msgpack, real pyarrow.  None = holds / not judged."""
+    if _REAL_MSGPACK is None:
+        return None
+    cls = type(v)
+    try:
+        got_a = cls.deserialize_from_bytes(v.serialize_to_bytes())
+    except Exception:  # noqa: BLE001
+        return None  # no Arrow encoding of this instance to agree with (Arrow's own domain; the shape items' business)
+    try:
+        blob = _real_serialize_compact(v)
+    except Exception as exc:  # noqa: BLE001
+        # with msgpack installed the state codec neither encodes nor declines (None -> Arrow fallback) an instance
+        # that Arrow round-trips: the "with msgpack" half of C03's quantifier has no serialized form for it
+        return f"{_describe(expr)}: serialize_compact({v!r}) raised {type(exc).__name__}: {exc} (neither a payload nor None) although Arrow encodes it"
+    if blob is None:
+        return None  # declined: the caller falls back to Arrow
+    try:
+        got_c = _real_deserialize_compact(cls, blob)
+    except Exception as exc:  # noqa: BLE001
+        return f"{_describe(expr)}: serialize_compact accepted {v!r} but deserialize_compact raised {type(exc).__name__}: {exc}"
+    if not _same(expr, got_c, got_a):
+        return f"{_describe(expr)}: {v!r} decodes to {got_c!r} from the compact encoding but to {got_a!r} from the Arrow encoding"
     return None
+
+
+def _flat_instance(a: dict) -> Any:
+    return _build(FLAT, _Pool((), (a["i0"], a["i1"], a["t0"]), (a["b0"], a["b1"]), (a["s0"], a["s1"]), (), (a["z0"], a["z1"], a["z2"])))
+
+
+def _stubbed_agreement(expr: tuple, v: Any) -> bool:
+    """Same judgement on the ideal-codec stub + the Arrow contract (what the solver explores)."""
+    try:
+        blob = _serialize_compact(v)
+    except HarnessModelError:
+        raise
+    except Exception:  # noqa: BLE001
+        return False  # neither a payload nor a refusal: the real replay decides whether Arrow encodes the instance
+    if blob is None:
+        return True  # declined -> Arrow fallback; C03 only speaks about instances the codec accepts
+    try:
+        got_c = _deserialize_compact(type(v), blob)
+    except HarnessModelError:
+        raise
+    except Exception:  # noqa: BLE001
+        return False
+    return _same(expr, got_c, _deser(type(v), _ser(v)))
 
 
 @cond(q=40, t=120, stubs=[_STUB_MSGPACK, _STUB_ARROW], encoded=[U.serialize_compact, U.deserialize_compact, U._compact_plan],
       bound="flat dataclass (int,bool,str,Optional of each,Transient); unbounded ints, strs len<=%d" % _L,
-      replay=_replay_compact if U._HAVE_MSGPACK else None,  # no un-stubbed msgpack here: the concrete re-run is on the stubbed codec
-      signature=lambda args, conc: "C03:compact:flat-roundtrip-differs")
+      replay=lambda a: _real_compact_verdict(FLAT, _flat_instance(a)),
+      signature=lambda args, conc: "C03:compact:flat-decodes-differently-from-arrow")
 def compact_codec_agrees_with_arrow_on_flat(i0: int, i1: int, t0: int, b0: bool, b1: bool, s0: str, s1: str, z0: bool, z1: bool, z2: bool) -> bool:
     """
     pre: len(s0) <= _L and len(s1) <= _L
     post: _
     """
     v = _build(FLAT, _Pool((), (i0, i1, t0), (b0, b1), (s0, s1), (), (z0, z1, z2)))
-    want = _expected(FLAT, v)
-    try:
-        blob = _serialize_compact(v)
-        if blob is None:
-            return False  # a flat instance of exactly the declared types must be claimed
-        got_c = _deserialize_compact(type(v), blob)
-        got_a = _deser(type(v), _ser(v))
-    except HarnessModelError:
-        raise
-    except Exception:  # noqa: BLE001
-        return False
-    return _same(FLAT, got_c, want) and _same(FLAT, got_a, want)
+    return _stubbed_agreement(FLAT, v)
 
 
-@cond(q=30, t=60, stubs=[_STUB_MSGPACK], encoded=[U.serialize_compact, U._compact_plan],
-      bound="5 non-flat shapes (list, nested dataclass, dict, frozenset[Enum], Enum scalar) chosen by a symbolic index")
-def compact_codec_refuses_non_flat(which: int, n0: int, i0: int, i1: int, s0: str, e0: int, e1: int, b0: bool) -> bool:
+@cond(q=40, t=120, stubs=[_STUB_MSGPACK], encoded=[U.serialize_compact, U._compact_plan],
+      bound="vacuity guard for compact_codec_agrees_with_arrow_on_flat (same instances): CONFIRMED = the codec accepts every one of "
+            "them, so the agreement item decided the decode for all; INCONCLUSIVE = it declined some (C03 allows that: never a VIOLATION)")
+def compact_codec_accepts_flat(i0: int, i1: int, t0: int, b0: bool, b1: bool, s0: str, s1: str, z0: bool, z1: bool, z2: bool) -> bool:
     """
-    pre: 0 <= which <= 4 and 0 <= n0 <= 2 and len(s0) <= _L and 0 <= e0 <= 2 and 0 <= e1 <= 2
+    pre: len(s0) <= _L and len(s1) <= _L
     post: _
     """
+    v = _build(FLAT, _Pool((), (i0, i1, t0), (b0, b1), (s0, s1), (), (z0, z1, z2)))
+    try:
+        blob = _serialize_compact(v)
+    except HarnessModelError:
+        raise
+    except Exception as exc:  # noqa: BLE001
+        raise HarnessModelError(f"vacuity guard: serialize_compact raised {type(exc).__name__} (judged by the agreement item)") from exc
+    if blob is None:
+        raise HarnessModelError("vacuity guard: the compact codec declined a flat instance; the agreement item says nothing about it")
+    return True
+
+
+def _nonflat_build(which: int, n0: int, i0: int, i1: int, s0: str, e0: int, e1: int, b0: bool) -> tuple:
     expr = _NONFLAT[0]
     for j in range(1, 5):
         if which == j:
             expr = _NONFLAT[j]
-    v = _build(expr, _Pool((n0,), (i0, i1), (b0,), (s0, s0), (e0, e1), ()))
-    try:
-        return _serialize_compact(v) is None
-    except HarnessModelError:
-        raise
-    except Exception:  # noqa: BLE001
-        return False
+    return expr, _build(expr, _Pool((n0,), (i0, i1), (b0,), (s0, s0), (e0, e1), ()))
+
+
+def _nonflat_instance(a: dict) -> tuple:
+    return _nonflat_build(a["which"], a["n0"], a["i0"], a["i1"], a["s0"], a["e0"], a["e1"], a["b0"])
+
+
+@cond(q=30, t=60, stubs=[_STUB_MSGPACK, _STUB_ARROW], encoded=[U.serialize_compact, U.deserialize_compact, U._compact_plan],
+      bound="5 non-flat shapes (list, nested dataclass, dict, frozenset[Enum], Enum scalar) chosen by a symbolic index: whatever "
+            "the codec accepts of them decodes like Arrow (declining them, as the code does today, is allowed but not required)",
+      replay=lambda a: _real_compact_verdict(*_nonflat_instance(a)),
+      signature=lambda args, conc: "C03:compact:non-flat-decodes-differently-from-arrow")
+def compact_codec_agrees_with_arrow_on_non_flat(which: int, n0: int, i0: int, i1: int, s0: str, e0: int, e1: int, b0: bool) -> bool:
+    """
+    pre: 0 <= which <= 4 and 0 <= n0 <= 2 and len(s0) <= _L and 0 <= e0 <= 2 and 0 <= e1 <= 2
+    post: _
+    """
+    expr, v = _nonflat_build(which, n0, i0, i1, s0, e0, e1, b0)
+    return _stubbed_agreement(expr, v)
 
 
 _load_generated()
